@@ -27,7 +27,7 @@ import (
 
 // Case is what a replay file carries: everything needed to re-execute.
 type Case struct {
-	Suite   string   `json:"suite"`                          // direct | collector | rawbody
+	Suite   string   `json:"suite"`                          // direct | collector | rawbody | export
 	Via     string   `json:"via,omitempty"`                  // direct: "" (ObfuscateJSON) | "plugin" (HARGeneratorPlugin.GenerateHAR); rawbody: "collector" | "plugin"
 	Off     bool     `json:"obfuscation_disabled,omitempty"` // rawbody only
 	Request bool     `json:"request_direction"`              // collector: request body (else response body)
@@ -36,6 +36,7 @@ type Case struct {
 	Body    string   `json:"body"`
 	Output  string   `json:"output"` // what the implementation returned
 	Err     string   `json:"error,omitempty"`
+	X       *XCase   `json:"export,omitempty"` // suite export (export.go)
 }
 
 func hasherOf(name string) obfuscation.Hasher {
@@ -256,6 +257,10 @@ func run(o *c.Out, k Case) {
 		runRaw(o, k)
 		return
 	}
+	if k.Suite == "export" {
+		runExport(o, k)
+		return
+	}
 	doc, err := parseJSON(k.Body)
 	if err != nil {
 		panic("generator produced a document the harness can not parse: " + err.Error() + "\n" + k.Body)
@@ -347,6 +352,7 @@ func main() {
 	o.DeclareSuite("direct", "From Verif Require Import C16.Model.", "case_direct", "run_direct")
 	o.DeclareSuite("collector", "From Verif Require Import C16.Model.", "case_collector", "run_collector")
 	o.DeclareSuite("rawbody", "From Verif Require Import C16.Model.", "case_rawbody", "run_rawbody")
+	o.DeclareSuite("export", "From Verif Require Import C16.Model C16.Export.", "case_export", "run_export")
 	o.DeclareSuite("classify", "From Verif Require Import C16.Model C16.Spec C16.Classify.", "case_classify", "run_classify")
 	o.Rule("hand-written regression documents, then generated JSON documents (depth <= 4, keys from a " +
 		"small pool so that names collide at different depths, arrays of objects, strings with escapes, " +
@@ -357,9 +363,15 @@ func main() {
 		"hasher), through the legacy diagnosis plugin's GenerateHAR and through the HAR collector's generateHAR " +
 		"for both directions; suite rawbody: bodies that are not JSON, empty bodies, obfuscation switched off, " +
 		"through both call sites; suite classify: the monitor's ambiguity verdict per exclusion against the Coq " +
-		"predicate; distinct = distinct (suite, inputs, output); non-trivial = the output has at least one leaf " +
+		"predicate; suite export: the collector through NewProcessor + Execute with a capturing exporter, obfuscation " +
+		"enabled, per base document the grid transaction_max_size_bytes {not given, small, large} x Content-Length " +
+		"{absent, accurate, too small, too large, not a number} x {identity, gzip} x real body {below, at, above} the " +
+		"limit, on either side, plus a random stream (limit <= 0, negative / signed lengths, gzip declared but not " +
+		"compressed, compressed but not declared, other encodings, non-JSON and empty bodies, bodies on both sides); " +
+		"distinct = distinct (suite, inputs, output); non-trivial = the output has at least one leaf " +
 		"kept because of an exclusion and at least one hashed leaf (direct, collector) / the body does not parse " +
-		"and obfuscation is on (rawbody) / some exclusion is ambiguous in the document (classify)")
+		"and obfuscation is on (rawbody) / some exclusion is ambiguous in the document (classify) / the transaction " +
+		"is exported, a limit is given and at least one leaf is hashed (export)")
 	var k Case
 	if _, ok := o.ReplayCase(&k); ok {
 		run(o, k)
@@ -441,6 +453,18 @@ func main() {
 		k := Case{Suite: "collector", Request: r.Bool(), Body: g.serialize(doc), Hasher: "md5"}
 		k.Excl = g.exclusions(doc, "collector", k.Request)
 		run(o, k)
+	}
+	// the export path (NewProcessor + Execute + capturing exporter)
+	for _, k := range exportFixed() {
+		run(o, k)
+	}
+	for i := 0; i < o.Scale(12, 80, 60); i++ {
+		for _, k := range exportGrid(r) {
+			run(o, k)
+		}
+	}
+	for i := 0; i < o.Scale(250, 1500, 2500); i++ {
+		run(o, exportRandom(r))
 	}
 	o.Finish()
 }
